@@ -83,6 +83,8 @@ def rule_grammar_literals(ctx: Ctx, rid="C05.GRAMMAR-LITERAL"):
 
 def check(rep):
     ctx = Ctx(rep)
+    if rep.tier == "thorough":
+        LR.validate_engine(ctx)
     rule_token_conv(ctx)
     rule_number_order(ctx)
     LR.rule_string_minimal(ctx)
